@@ -15,21 +15,28 @@ import (
 
 func init() {
 	h.Register(&h.Prop{ID: "C03", Gen: genC03, Exec: withPrim(map[string]h.ExecFn{
-		"tlb.enc":       exTlbEnc,
-		"tlb.parsetag":  exParseTag,
-		"tlb.fieldtag":  exFieldTag,
-		"tlb.dec":       exTlbDec,
-		"tlb.canon":     exTlbCanon,
-		"tlb.canoninfo": exTlbCanonInfo,
-		"go.rt":         goRoundTrip,
-		"go.redec":      goReDecode,
-		"go.stable":     goStable,
-		"go.bigint":     goBigInt,
-		"go.magictrunc": goMagicTrunc,
-		"go.tight":      goTight,
-		"abi.dec":       exAbiDec,
-		"abi.enc":       exAbiEnc,
-		"go.abi.rt":     goAbiRT,
+		"tlb.enc":         exTlbEnc,
+		"tlb.parsetag":    exParseTag,
+		"tlb.fieldtag":    exFieldTag,
+		"tlb.dec":         exTlbDec,
+		"tlb.canon":       exTlbCanon,
+		"tlb.canoninfo":   exTlbCanonInfo,
+		"go.rt":           goRoundTrip,
+		"go.redec":        goReDecode,
+		"go.stable":       goStable,
+		"go.bigint":       goBigInt,
+		"go.magictrunc":   goMagicTrunc,
+		"go.tight":        goTight,
+		"abi.dec":         exAbiDec,
+		"abi.enc":         exAbiEnc,
+		"go.abi.rt":       goAbiRT,
+		"tlb.stackput":    exTlbStackPut,
+		"tlb.dns":         exTlbDns,
+		"tlb.dnstext":     exTlbDnsText,
+		"tlb.dnsspec":     exTlbDnsSpec,
+		"go.vmstack.dest": goVmStackDest,
+		"go.vmtuple":      goVmTuple,
+		"go.vmcell.rt":    goVmCellRT,
 	})})
 }
 
@@ -179,6 +186,7 @@ func genC03(g *h.G) {
 	}
 	genAbiBodies(g)
 	genNilPointers(g)
+	genDnsAndStack(g)
 	genTags(g)
 	genReal(g)
 }
